@@ -380,6 +380,10 @@ bloom_filter_alloc<A> bloom_filter_alloc<A>::internal_deserialize_or_wrap(void* 
   ptr += copy_from_mem(ptr, num_bits_set);
   const bool is_dirty = (num_bits_set == DIRTY_BITS_VALUE);
 
+  // the bit array must lie within the given memory, whether it is copied or wrapped
+  const uint64_t num_bytes = num_longs << 3;
+  ensure_minimum_memory(end_ptr - ptr, num_bytes);
+
   uint8_t* bit_array;
   uint8_t* memory;
   if (wrap) {
@@ -388,8 +392,6 @@ bloom_filter_alloc<A> bloom_filter_alloc<A>::internal_deserialize_or_wrap(void* 
   } else {
     // allocate memory
     memory = nullptr;
-    const uint64_t num_bytes = num_longs << 3;
-    ensure_minimum_memory(end_ptr - ptr, num_bytes);
     AllocUint8 alloc(allocator);
     bit_array = alloc.allocate(num_bytes);
     if (bit_array == nullptr) {
